@@ -152,17 +152,22 @@ def run(rep, tier, seed):
         # a long sequence too (one loop of the automaton pumped): TLC's Acceptable is quadratic in the length, so 40-60
         # children in general and 257+ only for a few small rules in the thorough tier
         if len(sig) <= 8:
-            reps = (257, 300) if (tier == "thorough" and len(sig) <= 3) else (40, 60)
+            reps = (257, 300) if (tier == "thorough" and len(sig) <= 3) else (50, 62)
             walks += [w for w in c01.pumped_words(d2, rnd, count=1, reps=reps) if w and c01.FOREIGN not in w and d.out[d.run(w)] == "ACCEPT"][:1]
         for v in walks[:per + 1]:
-            pos = rnd.randrange(len(v))
-            w = list(v[:pos] + v[pos + 1:])
-            c = v[pos]
-            kind, got = call_index(unit, elem.get(unit), w, c, rules)
-            if kind == "raised":
-                rep.violation(f"{PID}:raised:{type(got).__name__}:{unit}", repr(got), {"kind": "insert", "unit": unit, "children": w, "candidate": c})
-                continue
-            cases.append({"unit": unit, "w": w, "c": c, "obs": got})
+            # short walks: one random child removed; long ones: the first, the last and a random child removed, and every
+            # name of the rule offered to the sequence without its last child (wide parents, ends of the list)
+            trials = [(list(v[:pos] + v[pos + 1:]), v[pos]) for pos in ({rnd.randrange(len(v))} | ({0, len(v) - 1} if len(v) >= 40 else set()))]
+            if len(v) >= 40:
+                trials += [(list(v[:-1]), c) for c in sig if not c.startswith("~")]
+            for w, c in trials:
+                kind, got = call_index(unit, elem.get(unit), w, c, rules)
+                if kind == "raised":
+                    rep.violation(f"{PID}:raised:{type(got).__name__}:{unit}", repr(got), {"kind": "insert", "unit": unit, "children": w, "candidate": c})
+                    continue
+                if kind == "refused":
+                    continue
+                cases.append({"unit": unit, "w": w, "c": c, "obs": got})
     rejects, rt = judge_traces(cases, PID, module="TraceInsert", cfg="TraceInsert.cfg", label="long", lib=wd)
     rep.cov["traces_validated_against_impl"] += len(cases)
     for rj in rejects:
